@@ -9,6 +9,7 @@ import xarray as xr
 
 from glotaran.model.item import ItemIssue
 from glotaran.model.item import ModelItem
+from glotaran.model.item import ModelItemIssue
 from glotaran.model.item import ModelItemType
 from glotaran.model.item import ParameterType
 from glotaran.model.item import attribute
@@ -182,11 +183,41 @@ def validate_global_megacomplexes(
     return get_megacomplex_issues(value, model, False)
 
 
+def validate_dataset_group(
+    value: str,
+    dataset_model: DatasetModel,
+    model: Model,
+    parameters: Parameters | None,
+) -> list[ItemIssue]:
+    """Get an issue if the dataset group of a dataset model is not defined.
+
+    Parameters
+    ----------
+    value: str
+        The label of the dataset group.
+    dataset_model: DatasetModel
+        The dataset model.
+    model: Model
+        The model.
+    parameters: Parameters | None,
+        The parameters.
+
+    Returns
+    -------
+    list[ItemIssue]
+    """
+    if value not in model.dataset_groups:
+        return [ModelItemIssue("dataset_groups", value)]
+    return []
+
+
 @item
 class DatasetModel(ModelItem):
     """A model for datasets."""
 
-    group: str = "default"
+    group: str = attribute(
+        default="default", validator=validate_dataset_group  # type:ignore[arg-type]
+    )
     force_index_dependent: bool = False
     megacomplex: list[ModelItemType[Megacomplex]] = attribute(
         validator=validate_megacomplexes  # type:ignore[arg-type]
